@@ -178,7 +178,7 @@ pub fn tight(dist: &[f64], u: usize, v: usize, c: f64, tol: f64) -> bool {
     if tol == 0.0 {
         a == b
     } else {
-        (a - b).abs() <= tol * 1.0f64.max(a.abs()).max(b.abs())
+        (a - b).abs() <= tol * a.abs().max(b.abs())
     }
 }
 
@@ -197,7 +197,8 @@ pub fn min_relative_gap(d: &Dense, dist: &[f64], weighted: bool, tol: f64) -> f6
             }
             let a = dist[u] + c;
             let b = dist[v];
-            let rel = (a - b).abs() / 1.0f64.max(a.abs()).max(b.abs());
+            let scale = a.abs().max(b.abs());
+            let rel = if scale == 0.0 { 0.0 } else { (a - b).abs() / scale };
             if rel > tol && rel < best {
                 best = rel;
             }
@@ -298,10 +299,46 @@ pub fn betweenness_unscaled(d: &Dense, weighted: bool, tol: f64) -> Vec<f64> {
                 let on = if tol == 0.0 {
                     a == c
                 } else {
-                    (a - c).abs() <= tol * 1.0f64.max(a.abs()).max(c.abs())
+                    (a - c).abs() <= tol * a.abs().max(c.abs())
                 };
                 if on {
                     b[v] += sigma[s][v] * sigma[v][t] * inv;
+                }
+            }
+        }
+    }
+    b
+}
+
+/// Betweenness where "shortest" is decided exactly as a label-setting search decides it: a path
+/// counts iff every arc on it is tight w.r.t. the distances from its source (left-to-right float
+/// sums, exact comparison). Used for weight classes whose sums are ulps apart. O(n^2 (n+m)).
+pub fn betweenness_unscaled_dag(d: &Dense, weighted: bool) -> Vec<f64> {
+    let n = d.n;
+    let mut b = vec![0.0; n];
+    for s in 0..n {
+        let dist = sssp(d, s, weighted);
+        let mut order: Vec<usize> = (0..n).filter(|v| dist[*v] != INF).collect();
+        order.sort_by(|a, c| dist[*a].partial_cmp(&dist[*c]).unwrap());
+        let preds: Vec<Vec<usize>> = (0..n)
+            .map(|t| (0..n).filter(|u| *u != t && tight(&dist, *u, t, d.cost(*u, t, weighted), 0.0)).collect())
+            .collect();
+        let sigma = path_counts(d, s, &dist, weighted, 0.0);
+        for &v in &order {
+            if v == s {
+                continue;
+            }
+            // tau[t] = number of tight paths v -> t inside s's shortest-path DAG
+            let mut tau = vec![0.0; n];
+            tau[v] = 1.0;
+            for &t in &order {
+                if t == v || t == s || dist[t] < dist[v] {
+                    continue;
+                }
+                let c: f64 = preds[t].iter().map(|u| tau[*u]).sum();
+                tau[t] = c;
+                if c > 0.0 {
+                    b[v] += sigma[v] * c / sigma[t];
                 }
             }
         }
